@@ -233,6 +233,24 @@ fn msg_buffer(w: &World, st: &Step, hostile_key: &Key) -> Vec<u8> {
             t.sign(&hostile_key.private);
             Message::Transaction(t).serialize()
         }
+        "tx_typed_noinputs" => {
+            // a privileged-typed transaction without inputs (n selects the type)
+            let mut t = Transaction::default();
+            t.timestamp = T0;
+            t.transaction_type = match st.n % 5 {
+                0 => TransactionType::Issuance,
+                1 => TransactionType::Fee,
+                2 => TransactionType::ATR,
+                3 => TransactionType::SPV,
+                _ => TransactionType::Vip,
+            };
+            let mut o = Slip::default();
+            o.public_key = hostile_key.public;
+            o.amount = 5;
+            t.add_to_slip(o);
+            t.sign(&hostile_key.private);
+            Message::Transaction(t).serialize()
+        }
         "tx_empty" => Message::Transaction(Transaction::default()).serialize(),
         "tx_shape" => Message::Transaction(shaped_tx(st.n, hostile_key)).serialize(),
         "tx_manyslips" => {
@@ -433,13 +451,24 @@ fn fetched_inner(w: &World, st: &Step) -> (SaitoHash, u64, Vec<u8>) {
             let _ = b.generate();
             (b.hash, b.id, ser(&b))
         }
-        "id_zero" => {
+        "id_zero" | "id_zero_child" => {
             let mut b = honest.clone();
             b.id = 0;
             b.generate_pre_hash();
             b.sign(&w.creator.private);
             let _ = b.generate();
-            (b.hash, b.id, ser(&b))
+            if st.kind == "id_zero" {
+                (b.hash, b.id, ser(&b))
+            } else {
+                // a block that builds on the id-0 block and claims the id after the honest block's
+                let mut c = w.blocks[(i + 1).min(w.blocks.len() - 1)].clone();
+                c.id = honest.id + 1;
+                c.previous_block_hash = b.hash;
+                c.generate_pre_hash();
+                c.sign(&w.creator.private);
+                let _ = c.generate();
+                (c.hash, c.id, ser(&c))
+            }
         }
         other => panic!("unknown fetched kind {}", other),
     }
@@ -458,7 +487,7 @@ fn new_side(rt: &tokio::runtime::Runtime, w: &World, scn: &Scenario, name: &'sta
     let mut cfg = w.lw.cfg();
     cfg.spv = scn.spv;
     let mut f = FullNode::new(key(1), cfg, SimIo::new(), clock);
-    f.consensus.produce_blocks_by_timer = false;
+    f.consensus.produce_blocks_by_timer = true;
     rt.block_on(async {
         f.init().await;
         for b in w.blocks.iter().take(scn.pre) {
